@@ -121,10 +121,15 @@ inline constexpr bool IS_NOTRHOW_LEXICOGRAPHICAL_COMPARABLE<
     T, std::void_t<decltype(std::declval<const T&>() < std::declval<const T&>())>> =
     noexcept(std::declval<const T&>() < std::declval<const T&>());
 
+// Whether copying the bytes of a U yields the same object as T(u): true for identical types and for conversions
+// between integral types of equal size (except to bool, which normalises to 0 / 1). Class types with converting
+// constructors or conversion operators and enumerations must go through the conversion.
 template <class T, class U>
 inline constexpr bool MEMCPY_COMPATIBLE =
-    detail::EQUAL_SIZEOF<T, U> && std::is_trivially_copyable_v<T> && std::is_trivially_copyable_v<U> &&
-    std::is_floating_point_v<T> == std::is_floating_point_v<U>;
+    std::is_trivially_copyable_v<T> &&
+    (std::is_same_v<std::remove_cv_t<T>, std::remove_cv_t<U>> ||
+     (detail::EQUAL_SIZEOF<T, U> && std::is_integral_v<T> && std::is_integral_v<U> &&
+      !std::is_same_v<std::remove_cv_t<T>, bool>));
 
 // Implementation taken from MSVC _Can_memcmp_elements
 template <class T, class U = T,
